@@ -1,6 +1,6 @@
 (* C12 — the token tree is well-formed and its generic views are faithful. *)
 From Coq Require Import ZArith List Bool.
-From Mistletoe Require Import Base.PyStr Model.Tree Model.Block Model.Traverse Model.Parser Proofs.TraverseBfs Proofs.Shape Proofs.HeadingLevel.
+From Mistletoe Require Import Base.Sx Base.PyStr Base.PyText Model.Tree Model.Block Model.Traverse Model.Parser Proofs.TraverseBfs Proofs.Shape Proofs.HeadingLevel.
 Import ListNotations.
 
 (* every tree the parser model produces, under every token configuration and for
@@ -8,10 +8,21 @@ Import ListNotations.
    items, tables rows, rows cells, leaf blocks inline tokens only), inline tokens
    never contain block tokens, code/HTML blocks hold exactly one raw text (by type);
    attribute ranges: every ATX heading has level 1-6, every setext heading level 1 or 2
-   (wf_shape checks them; a list's start is by construction the integer of its first marker) *)
+   and every list's start agrees with its first item's marker: None for a bullet, the marker's
+   number otherwise (wf_shape checks all of these) *)
 Theorem C12_shape : forall cfg lines, wf_shape (fst (fst (parse_lines cfg lines))) = true.
 Proof. exact parse_well_shaped. Qed.
 Print Assumptions C12_shape.
+
+(* what wf_shape says about a list, spelled out *)
+Theorem C12_list_start_agrees : forall start loose a ch rest, wf_shape (List start loose (ListItem a ch :: rest)) = true ->
+  start = if (slen (i_leader a) =? 1)%Z then None else Some (int_of_digits (removelast (i_leader a))).
+Proof.
+  intros start loose a ch rest H. cbn [wf_shape list_start_agrees] in H. apply andb_true_iff in H as [H _]. apply andb_true_iff in H as [H _].
+  unfold start_of_leader in H. destruct (slen (i_leader a) =? 1)%Z; destruct start as [x|]; try discriminate; try reflexivity.
+  cbn [opt_z_eqb] in H. apply Z.eqb_eq in H. subst x. reflexivity.
+Qed.
+Print Assumptions C12_list_start_agrees.
 
 (* the fact behind the heading range: for the Heading.pattern regenerated from /repo, whatever the line *)
 Theorem C12_heading_level_range : forall line lv ct cl, heading_start line = Some (lv, ct, cl) -> (1 <= lv <= 6)%Z.
